@@ -15,7 +15,7 @@ ASSUME = ["the theorem C08_factorises is a restatement (by construction); the pr
           "perturbed node/mutation metadata uses permissive JSON schemas so that mn/vr are still written (policy of C32)"]
 
 PERTURBATIONS = ["states", "populations", "monomorphic_sites", "provenance", "metadata", "mutation_times",
-                 "individuals", "site_metadata", "edge_metadata"]
+                 "individuals", "site_metadata", "edge_metadata", "node_flag_bits"]
 
 
 def perturb(rng, ts, kinds, phased=True):
@@ -49,6 +49,12 @@ def perturb(rng, ts, kinds, phased=True):
         t.nodes.packset_metadata([json.dumps({"foo": rng.randint(0, 9)}).encode() for _ in range(t.nodes.num_rows)])
         t.mutations.metadata_schema = tskit.MetadataSchema.permissive_json()
         t.mutations.packset_metadata([json.dumps({"bar": rng.random()}).encode() for _ in range(t.mutations.num_rows)])
+    if "node_flag_bits" in kinds:   # bits other than NODE_IS_SAMPLE
+        fl = t.nodes.flags.copy()
+        for u in range(t.nodes.num_rows):
+            if rng.random() < 0.5:
+                fl[u] |= rng.choice([1 << 20, 1 << 21, 1 << 16, 2])
+        t.nodes.flags = fl
     if "site_metadata" in kinds:
         t.sites.packset_metadata([bytes([rng.randrange(256)]) for _ in range(t.sites.num_rows)])
     if "edge_metadata" in kinds:
